@@ -56,7 +56,12 @@ def main():
         subprocess.call(['git', '-C', '/repo', 'worktree', 'remove', '--force', wt], stderr=subprocess.DEVNULL)
         subprocess.check_call(['git', '-C', '/repo', 'worktree', 'add', '-q', '--detach', wt, 'HEAD'])
         try:
-            rc, out = run(['git', '-C', wt, 'apply', it['patch']])
+            # --3way places every hunk by the blob the patch was made against (recorded in its index line), so that
+            # a hunk whose context occurs twice (partition/rpartition, ljust/rjust ...) cannot land in the wrong
+            # function after later commits have shifted the line numbers
+            rc, out = run(['git', '-C', wt, 'apply', '--3way', it['patch']])
+            if rc == 0 and 'with conflicts' in out:
+                rc = 1
             if rc != 0:
                 rows.append((it, 'PATCH-DOES-NOT-APPLY', '', 0))
                 print('%-6s %-4s %-42s PATCH-DOES-NOT-APPLY' % (it['id'], it['prop'], it['name'][:42]), flush=True)
@@ -66,6 +71,15 @@ def main():
                 rows.append((it, 'KILLED-BY-EXISTING-SUITE', out.strip().splitlines()[-1] if out.strip() else '', 0))
                 print('%-6s %-4s %-42s KILLED-BY-EXISTING-SUITE %s' % (it['id'], it['prop'], it['name'][:42], rows[-1][2][:80]), flush=True)
                 continue
+            demo = os.path.join(os.path.dirname(it['patch']), 'demo.py')
+            if it['id'].startswith('S') and os.path.exists(demo):
+                # the change still has to do what its author demonstrated (exit 1 with it, 0 on /repo)
+                rc_d, _ = run([PY, '-B', demo], cwd='/tmp', env=dict(os.environ, PYTHONPATH=os.path.join(wt, 'src')))
+                rc_o, _ = run([PY, '-B', demo], cwd='/tmp', env=dict(os.environ, PYTHONPATH='/repo/src'))
+                if rc_d != 1 or rc_o != 0:
+                    rows.append((it, 'DEMO-DOES-NOT-DISCRIMINATE', 'demo rc=%d with the change, %d on /repo' % (rc_d, rc_o), 0))
+                    print('%-6s %-4s %-42s %-26s %s' % (it['id'], it['prop'], it['name'][:42], rows[-1][1], rows[-1][2]), flush=True)
+                    continue
             props = from_props if args.all_props else [it['prop']]
             caught = []
             t0 = time.time()
